@@ -254,7 +254,7 @@ func bigLattice(work *choice.Source, shape *simsolid.Shape, v *variant, lo, hi i
 		ext = math.Max(ext, b[i]-a[i])
 	}
 	shape.Delta = ext / float64(n)
-	v.Knobs = map[string]int{"cm.itemStride": 257}
+	v.Knobs = map[string]int{"cm.itemStride": 257, "auto.stride": 257}
 	v.YieldEvery = 0
 	return true
 }
@@ -274,7 +274,7 @@ func runMC(r *runner, work *choice.Source, search bool) (fs []Finding) {
 	salt := work.U64()
 	big := bigLattice(work, shape, &v, 64, 112, false)
 	if big {
-		r.refKnobs = map[string]int{"cm.itemStride": 257}
+		r.refKnobs = map[string]int{"cm.itemStride": 257, "auto.stride": 257}
 		r.st.probe("mc.big_lattice")
 	}
 	r.st.Workers = v.Workers
@@ -410,7 +410,7 @@ func runDC(r *runner, work *choice.Source, repair, forceBig bool) (fs []Finding)
 		if buf > 1 {
 			buf = rows * nx * ny
 		}
-		r.refKnobs = map[string]int{"cm.itemStride": 257}
+		r.refKnobs = map[string]int{"cm.itemStride": 257, "auto.stride": 257}
 		r.st.probe("dc.big_lattice")
 	}
 	r.st.Workers = v.Workers
